@@ -12,7 +12,7 @@ RULE = ("exhaustive: every run layout (0..3 runs, run lengths >=0, total <=5 qui
         "[-len-2,len+2]; + on all ordered pairs of a 14-value pool with FmtStr and plain str on either side; * with counts "
         "-1..3; join of every list of <=3 items from a 6-item pool for 4 separators, plus join with plain-str items that contain ESC[ (finding D27), reflected repetition n*f, slices with a step; plus seeded random longer cases. "
         "non-trivial = distinct (operation, operands) whose result is not the empty string or that raises")
-ASSUMPTIONS = ["slice steps are not supported by the library (NotImplementedError) and are outside the statement (the tie still compares the error)",
+ASSUMPTIONS = ["slice steps are not supported by the library (NotImplementedError) and are outside the statement (compared only by the representation-level tie, which is not a verdict)",
                "f + str / str + f do not parse the str (Chunk(other)); join converts str items with fmtstr(s), which parses escape sequences: "
                "for str items containing ESC[ the property is false of the code (open finding D27, reported as KNOWN-FINDING)"]
 LEVEL_NOTE = ("slicing, indexing, +, *, n*f and join over FmtStr items are proved for all inputs (C06_slice, C06_index, C06_add*, C06_mul, C06_rmul, C06_join); "
@@ -292,8 +292,11 @@ def check(ctx):
             D27_MODEL[line(c)] = rep
     except Exception as e:  # noqa: BLE001 - without the model nothing is attributed to D27
         ctx.note("D27 expectations unavailable: %r" % (e,))
-    ctx.tie("C06/ops", cases, line, impl, canon_cells, canon_cells)
-    ctx.tie("C06/ops-run-level", cases, line, impl)   # un-canonicalised: run structure too (C09/C15/C16 reuse getslice)
+    # property level: per-character view, inputs inside the quantifier (slice steps are outside it)
+    ctx.tie("C06/ops", [c for c in cases if c["op"] != "step"], line, impl, canon_cells, canon_cells)
+    # representation level: run structure too (C09/C15/C16 reuse getslice) and the refusal of slice steps; a difference
+    # here deepens the search but is no verdict while the per-character tie above holds
+    ctx.tie("C06/ops-run-level", cases, line, impl, level="representation")
     for c in cases:
         w = oracle(c)
         e = expected(c)
